@@ -161,6 +161,24 @@ func (p *c12Prog) bufferComponent() {
 			}
 		}
 	})
+	// read-only Diff calls from another goroutine keep running while everything is operated and closed
+	stopDiff := make(chan struct{})
+	if c.Rng.IntN(2) == 0 {
+		for _, cons := range conss {
+			cons := cons
+			p.goFn(func() {
+				for {
+					select {
+					case <-stopDiff:
+						return
+					default:
+					}
+					b.Diff(cons)
+					time.Sleep(20 * time.Microsecond)
+				}
+			})
+		}
+	}
 	mode := core.Pick(c.Rng, "consumers-then-buffer", "buffer-directly", "buffer-directly-quiescent")
 	// closing a consumer directly requires that no Get is left blocked on it (the statement's proviso): in that mode
 	// the getters use a context the component cancels first; otherwise they may even use context.Background(), and
@@ -261,6 +279,7 @@ func (p *c12Prog) bufferComponent() {
 				p.problem("blocked", "a Get/Range on a closed Buffer's consumer never returned:\n%s", core.DumpAll())
 			}
 		}
+		close(stopDiff)
 	})
 }
 
@@ -588,7 +607,50 @@ func leakKey(stack string) string {
 // c12CloseSemantics: sequential, per-handle close semantics in isolation (incl. Rollback/Get sequences around Close).
 func c12CloseSemantics(c *core.Ctx) {
 	p := &c12Prog{c: c}
-	switch c.Rng.IntN(4) {
+	switch c.Rng.IntN(5) {
+	case 4: // Buffer.Close while one consumer still holds an uncommitted read: Close may not complete (and may not
+		// report completion: Done, consumers closed) before that read is committed or rolled back
+		b := newBuffer(cleanerSpec{}, core.Pick(c.Rng, 0, time.Millisecond), nil)
+		b.Put(context.Background(), 1, 2)
+		k := 1 + c.Rng.IntN(3)
+		conss := make([]bigbuff.Consumer, k)
+		for i := range conss {
+			conss[i], _ = b.NewConsumer()
+		}
+		holder := conss[c.Rng.IntN(k)]
+		holder.Get(context.Background()) // uncommitted
+		closed := core.Go(func() { b.Close() })
+		time.Sleep(time.Duration(200+c.Rng.IntN(800)) * time.Microsecond)
+		select {
+		case <-closed:
+			for i, cons := range conss {
+				select {
+				case <-cons.Done():
+				default:
+					p.problem("closed-before-consumers", "Buffer.Close returned while consumer %d of the buffer is still open (one consumer holds an uncommitted read)", i)
+				}
+			}
+		default:
+		}
+		select {
+		case <-b.Done():
+			select {
+			case <-holder.Done():
+			default:
+				p.problem("closed-before-consumers", "Buffer.Done is closed while a consumer holding an uncommitted read is still open")
+			}
+		default:
+		}
+		if c.Rng.IntN(2) == 0 {
+			holder.Rollback()
+		} else {
+			holder.Commit()
+		}
+		if !core.AwaitDone(closed, 10000) {
+			p.problem("blocked", "Buffer.Close did not return after the uncommitted read was resolved:\n%s", core.DumpAll())
+			break
+		}
+		p.checkBufferClosed(b, conss, nil)
 	case 3: // concurrent first use of a zero-value Buffer (the lazy initialiser is double-checked under the lock): every
 		// Done channel that was handed out must be closed by Close
 		for it := 0; it < 200 && len(p.probs) == 0; it++ {
